@@ -7,6 +7,7 @@ import (
 	"math/big"
 
 	"github.com/nspcc-dev/neo-go/pkg/vm"
+	"github.com/nspcc-dev/neo-go/pkg/vm/opcode"
 	"github.com/nspcc-dev/neo-go/pkg/vm/stackitem"
 )
 
@@ -115,4 +116,61 @@ func c12DoWalk(v *vm.VM) c12Walk {
 		w.limitErr = fmt.Sprintf("invocation stack of %d contexts", len(v.Istack()))
 	}
 	return w
+}
+
+// c12Reaches: can container be reached from it by following compound children (it itself included)?
+func c12Reaches(it stackitem.Item, container stackitem.Item) bool {
+	seen := map[any]bool{}
+	var visit func(x stackitem.Item) bool
+	visit = func(x stackitem.Item) bool {
+		switch t := x.(type) {
+		case *stackitem.Array, *stackitem.Struct:
+			if x == container {
+				return true
+			}
+			if seen[t] {
+				return false
+			}
+			seen[t] = true
+			for _, e := range t.Value().([]stackitem.Item) {
+				if visit(e) {
+					return true
+				}
+			}
+		case *stackitem.Map:
+			if x == container {
+				return true
+			}
+			if seen[t] {
+				return false
+			}
+			seen[t] = true
+			for _, e := range t.Value().([]stackitem.MapElement) {
+				if visit(e.Value) {
+					return true
+				}
+			}
+		}
+		return false
+	}
+	return visit(it)
+}
+
+// c12ClosesCycle: is the instruction about to be executed an APPEND/SETITEM that stores into a compound something from
+// which that compound can be reached?  (A cycle can become unreachable in the very instruction that closes it, so the
+// "no cycle was built so far" flag must be kept as history, not read off what is still reachable.  Over-approximation:
+// struct values are copied on the way in, which may break the cycle.)
+func c12ClosesCycle(v *vm.VM, op opcode.Opcode) bool {
+	es := v.Estack()
+	switch op {
+	case opcode.APPEND:
+		if es.Len() >= 2 {
+			return c12Reaches(es.Peek(0).Item(), es.Peek(1).Item())
+		}
+	case opcode.SETITEM:
+		if es.Len() >= 3 {
+			return c12Reaches(es.Peek(0).Item(), es.Peek(2).Item())
+		}
+	}
+	return false
 }
